@@ -160,7 +160,31 @@ def run(ctx):
             eq(ctx, "R1", f"{k}: zero weights drop their material [{label}]", g, d, csite,
                nonzero=[rho * I.getattr(tz, "mass")])
         ctx.unit("functions_inlined", len(set(I.calls)))
-    ctx.floor("R1", 51)
+    # a material with an atom that has neutron data but no bulk density of its own (radium): both routes compute it, alike
+    w, lam, mats = _setup(ctx, False)
+    I = w.I
+    for mi in mats[:1]:
+        for a_ in I.getattr(mi, "atoms"):
+            rec_ = I.getattr(a_, "neutron")
+            I.heap[rec_.id]["_number_density"] = None
+            break
+    calc = I.call(I.global_name("nsf", "neutron_composite_sld"), [list(mats[:2])], {"wavelength": lam})
+    gq = I.call(calc, [Vec(ws[:2])], {"density": rho})
+    tot = {}
+    for wi, mi in zip(ws[:2], mats[:2]):
+        for a, c in I.getattr(mi, "atoms").items():
+            tot[a] = tot.get(a, 0) + wi * c
+    tq = I.call(I.global_name("formulas", "formula"), [tot], {})
+    dq = I.call(I.global_name("nsf", "neutron_sld"), [tq], {"density": rho, "wavelength": lam})
+    if dq is None or (isinstance(dq, tuple) and dq[0] is None):
+        ctx.fail("R1", "an atom with neutron data but no bulk density of its own: the direct calculation has a value, like the calculator",
+                 f"neutron_sld gives {_s(dq, 60)} where the calculator gives {_s(gq[0], 80)}", fsite(ctx, "nsf.neutron_scattering"),
+                 witness="neutron_sld('RaCl2', density=4.9) vs neutron_composite_sld(['RaCl2'])([1], density=4.9)")
+    else:
+        for k, g, d_ in zip(names, gq, dq):
+            eq(ctx, "R1", f"{k}: an atom with neutron data but no bulk density of its own: calculator = direct", g, d_, csite,
+               nonzero=[rho * I.getattr(tq, "mass")])
+    ctx.floor("R1", 52)
     ctx.floor("R2", 2)
     # _sum_piece is the per-compound loop of neutron_scattering (same four sums)
     w, lam, mats = _setup(ctx, False)
